@@ -39,8 +39,8 @@ BigModSmall(x, p) == LET r == ModSmall(x.mag, p) IN IF x.neg /\ r # 0 THEN p - r
 
 \* the logged matrix reduced modulo p
 MatMod(e, p) ==
-  IF e.mk = "int" THEN [r \in 1..e.k |-> [c \in 1..e.k |-> SMod(e.Mi[r][c], p)]]
-  ELSE [r \in 1..e.k |-> [c \in 1..e.k |-> BigModSmall(e.Mb[r][c], p)]]
+  IF e.mk = "int" THEN TLCEval([r \in 1..e.k |-> TLCEval([c \in 1..e.k |-> SMod(e.Mi[r][c], p)])])
+  ELSE TLCEval([r \in 1..e.k |-> TLCEval([c \in 1..e.k |-> BigModSmall(e.Mb[r][c], p)])])
 
 \* determinant modulo p by Gaussian elimination (definition-level oracle for the generator)
 DetModP(A, n, p) ==
@@ -54,10 +54,10 @@ DetModP(A, n, p) ==
                          a1  == IF pr = c THEN acc ELSE (p - acc) % p
                          pv  == m1[c][c]
                          inv == PowI(pv, p - 2, p)
-                         m2  == [r \in 1..n |->
+                         m2  == TLCEval([r \in 1..n |->
                                    IF r <= c \/ m1[r][c] = 0 THEN m1[r]
                                    ELSE LET f == (m1[r][c] * inv) % p
-                                        IN [cc \in 1..n |-> (m1[r][cc] + (p - f) * m1[c][cc]) % p]]
+                                        IN TLCEval([cc \in 1..n |-> (m1[r][cc] + (p - f) * m1[c][cc]) % p])])
                      IN Go(m2, c + 1, (a1 * pv) % p)
   IN Go(A, 1, 1)
 
